@@ -197,7 +197,7 @@ class StaticUseDep(packages.PackageRestriction):
     def __init__(self, false_use, true_use):
         v = []
         if false_use:
-            v.append(values.ContainmentMatch(false_use, negate=True, match_all=True))
+            v.append(values.ContainmentMatch(false_use, negate=True))
         if true_use:
             v.append(values.ContainmentMatch(true_use, match_all=True))
 
